@@ -225,22 +225,29 @@ def _generate_code(
     :param lvl: Recursion depth
     :return: imports, list of first lvl classes
     """
+    # Generators normalize the names of their models. Rendered code refers to other models (parents included)
+    # by name, so every generator has to exist before the first class is rendered.
+    generators = _create_generators(structure, class_generator, class_generator_kwargs)
+    return _render_generators(generators)
+
+
+def _create_generators(structure: List[dict], class_generator: Type[GenericModelCodeGenerator],
+                       class_generator_kwargs: dict) -> List[tuple]:
+    return [
+        (
+            class_generator(data["model"], **class_generator_kwargs),
+            _create_generators(data["nested"], class_generator, class_generator_kwargs)
+        )
+        for data in structure
+    ]
+
+
+def _render_generators(generators: List[tuple]) -> Tuple[ImportPathList, List[str]]:
     imports = []
     classes = []
-    generators = []
-    for data in structure:
-        nested_imports, nested_classes = _generate_code(
-            data["nested"],
-            class_generator,
-            class_generator_kwargs,
-            lvl=lvl + 1
-        )
+    for gen, nested_generators in generators:
+        nested_imports, nested_classes = _render_generators(nested_generators)
         imports.extend(nested_imports)
-        generators.append((
-            class_generator(data["model"], **class_generator_kwargs),
-            nested_classes
-        ))
-    for gen, nested_classes in generators:
         cls_imports, cls_string = gen.generate(nested_classes)
         imports.extend(cls_imports)
         classes.append(cls_string)
